@@ -169,9 +169,15 @@ def rule_conserve(rep, R):
     fin = m["final"]
     saved2 = fin.fields.get("saved_frames")
     rin, rout = ret_tuple(m)
-    chunks_e = fin.locals.get("nbr_chunks_ready")
+    # the number of blocks processed per call = the `.take(K)` of the unit loop (identified by role, not by name)
+    chunks_e = None
+    for l_ in m["loops"]:
+        for u_ in l_["units"]:
+            for nm_, aa_ in u_.get("in_chain", []):
+                if nm_ == "take" and aa_:
+                    chunks_e = aa_[0]
     if saved2 is None or chunks_e is None:
-        raise AnchorMissing("FftFixedIn: saved_frames / nbr_chunks_ready")
+        raise AnchorMissing("FftFixedIn: saved_frames store / block count of the unit loop (.take(K))")
     C = sp.Symbol("chunks", **INTSYM)
     cs = alg.conv(chunks_e)
     S, CH, FI, FO = alg.sym("saved_frames"), alg.sym("chunk_size_in"), alg.sym("fft_size_in"), alg.sym("fft_size_out")
